@@ -1,7 +1,10 @@
 """C02 HTTP and JWT authentication admit only what the authority grants — spec/auth/AuthExt.tla"""
+import concurrent.futures
 import json
+import os
 import time
 import vf
+import walk
 
 LEVEL = "model_checking"
 LEVEL_TEXT = ("AuthExt.tla states the two iff-formulas (http: excluded or a POST carrying the request was answered 2xx; "
@@ -11,7 +14,10 @@ LEVEL_TEXT = ("AuthExt.tla states the two iff-formulas (http: excluded or a POST
               "independence, every step judged by the per-request formula, serially and from concurrent goroutines) "
               "and emits every case; the real auth.Manager executes each case against a local auth "
               "server that logs the POST it received and a local JWKS server with tokens minted per class; TLC then "
-              "evaluates the statement on every observed record")
+              "evaluates the statement on every observed record; JwksCache.tla models the authority's changing key set and "
+              "the manager's JWKS cache (rotation, endpoint failures, cache period, RefreshJWTJWKS): exhaustive MC, every edge "
+              "of its state graph walked on ONE real Manager against a local JWKS endpoint (time passes by ageing "
+              "jwksLastRefresh in-package), decisions judged by TLC from the endpoint's download log")
 LEVEL_NOTE = ("signature/expiry verification is an atom fixed by the token class (third-party jwt library); open points of "
               "the statement (token+jwt both present, repeated parameter, MoQ as HTTP protocol, query tokens with the "
               "http method, tokens without exp) accept either answer; reported user / AskCredentials are not part of "
@@ -37,7 +43,57 @@ POSTCONDITION Accepted
 CHECK_DEADLOCK FALSE
 """
 
+JCFG = """SPECIFICATION Spec
+CONSTANTS
+  MaxAge = %d
+  Healths = {%s}
+  CodeIgnoresStatus = %s
+INVARIANT %s
+INVARIANT TaintOnlyByStatusIgnored
+CHECK_DEADLOCK FALSE
+"""
+
+JTCFG = """SPECIFICATION TraceSpec
+CONSTANTS
+  MaxAge = %d
+  Healths = {%s}
+  CodeIgnoresStatus = FALSE
+INVARIANTS Verdicts Harness Drift
+POSTCONDITION Accepted
+CHECK_DEADLOCK FALSE
+"""
+
 PKG = "./internal/auth/"
+
+
+def _jwks_walks(ctx, maxage, healths):
+    """JwksCache.tla: exhaustive MC of the bounded model + its state graph, covered edge by edge."""
+    d = ctx.specdir()
+    with open(d + "/JwksCache_gen.cfg", "w") as fh:
+        fh.write(JCFG % (maxage, healths, "FALSE", "ImplSatisfiesPropStrict"))
+    dot = ctx.path("jwks.dot")
+    r = vf.tlc(ctx, "JwksCache", "JwksCache_gen.cfg", workers=2, timeout=600, extra=["-dump", "dot,actionlabels", dot])
+    g = walk.load(dot)
+    os.remove(dot)
+    ws, covered, total = walk.edge_cover(g, maxlen=40, seed=int(ctx.seed))
+    out = []
+    for i, w in enumerate(ws):
+        acts = []
+        for lab, _ in w:
+            name, args = walk.parse_label(lab)
+            a = {"a": {"Auth": "auth", "Rotate": "rotate", "Break": "break", "Recover": "recover", "Half": "half",
+                       "Refresh": "refresh"}[name], "k": "", "h": ""}
+            if name == "Auth":
+                a["k"] = args[0]
+            if name == "Break":
+                a["h"] = args[0]
+            acts.append(a)
+        out.append({"walk": i, "acts": acts})
+    return r, out, covered, total
+
+
+def _jwks_say(acts, upto):
+    return " ".join((a["a"] + ("(%s)" % (a["k"] or a["h"]) if a["k"] or a["h"] else "")) for a in acts[:upto])
 
 
 def _key(c):
@@ -70,7 +126,18 @@ def run(ctx):
     t0 = time.time()
     with open(d + "/AuthExt_gen.cfg", "w") as fh:
         fh.write(CFG % ("TRUE" if ctx.thorough else "FALSE"))
+    maxage = ctx.pick(1, 2)
+    healths = ctx.pick('"ok", "s500", "down", "s503json"', '"ok", "s500", "down", "s503json", "badjson"')
+    pool = concurrent.futures.ThreadPoolExecutor(max_workers=2)
+    jfut = pool.submit(_jwks_walks, ctx, maxage, healths)       # runs beside the AuthExt generation
     r = vf.mc(ctx, "AuthExt", "AuthExt_gen.cfg", workers=6, timeout=1500, java_opts=["-Xmx8g"])
+    jr, jwalks, jcovered, jtotal = jfut.result()
+    ctx.add("states", jr.distinct)
+    ctx.add("transitions", jr.generated)
+    ctx.cov.setdefault("mc_runs", []).append({"module": "JwksCache", "cfg": "JwksCache_gen.cfg", "distinct": jr.distinct,
+                                              "generated": jr.generated, "depth": jr.depth, "wall_s": round(jr.wall, 2)})
+    if jcovered != jtotal or len(jwalks) < 20:
+        raise vf.Infra("JwksCache: %d of %d edges covered by %d walks" % (jcovered, jtotal, len(jwalks)))
     perms = r.tagged("PERMS")
     if len(perms) != 1:
         raise vf.Infra("expected one PERMS line")
@@ -84,7 +151,16 @@ def run(ctx):
     t0 = time.time()
     cf = vf.write_ndjson(ctx.path("cases.ndjson"), lines)
     of = ctx.path("obs.ndjson")
-    vf.gotest_ok(ctx, PKG, "^TestVerif_C02_Replay$", cases=cf, out=of, timeout=1500)
+    jcf = vf.write_ndjson(ctx.path("jwks_walks.ndjson"), jwalks)
+    jof = d + "/C02_jwks_trace.ndjson"
+    gout = vf.gotest_ok(ctx, PKG, "^TestVerif_C02_(Replay|Jwks)$", cases=cf, out=of, timeout=1500, extra=["-v"],
+                        params={"JWKSCASES": jcf, "JWKSOUT": jof, "MAXAGE": maxage})
+    import re
+    ctx.set("go_test_seconds", {m.group(1): float(m.group(2))
+                                for m in re.finditer(r"--- PASS: TestVerif_C02_(\w+) \(([0-9.]+)s\)", gout)})
+    jrecs = vf.read_ndjson(jof)
+    if [x["walk"] for x in jrecs] != list(range(len(jwalks))):
+        raise vf.Infra("harness executed %d of %d JWKS walks" % (len(jrecs), len(jwalks)))
     recs = vf.read_ndjson(of)
     if {rec["id"] for rec in recs} != set(range(len(cases))):
         raise vf.Infra("harness replayed %d of %d cases" % (len({rec["id"] for rec in recs}), len(cases)))
@@ -95,6 +171,10 @@ def run(ctx):
 
     with open(d + "/TraceAuthExt.cfg", "w") as fh:
         fh.write(TCFG)
+    with open(d + "/TraceJwksCache.cfg", "w") as fh:
+        fh.write(JTCFG % (maxage, healths))
+    jtv_fut = pool.submit(vf.tlc, ctx, "TraceJwksCache", "TraceJwksCache.cfg", workers=1, timeout=900,
+                          java_opts=["-Xmx4g"])             # runs beside the AuthExt trace validation
     tf = d + "/C02_trace.ndjson"
     chunk = 25000
     nbad = 0
@@ -136,6 +216,68 @@ def run(ctx):
             drift[k] = drift.get(k, 0) + 1
     if nbad:
         ctx.note("%d records violate the statement (at most 12 reported per class): %s" % (nbad, json.dumps(perclass)))
+    # JWKS cache walks: verdicts of TraceJwksCache.tla
+    jtv = jtv_fut.result()
+    pool.shutdown()
+    if jtv.tagged("HARNESS"):
+        h = jtv.tagged("HARNESS")[0]
+        raise vf.Infra("JWKS endpoint of the harness inconsistent with the walk: walk %d step %d: %s" % (
+            h["l"] - 1, h["step"], json.dumps(jrecs[h["l"] - 1]["steps"][h["step"] - 1])))
+    # group the failing decisions; per group report the one with the shortest history
+    jgroups = {}
+    jbad = jtv.tagged("BAD")
+    for bad in jbad:
+        w = jrecs[bad["l"] - 1]
+        acts = jwalks[w["walk"]]["acts"]
+        n = bad["step"]
+        st = w["steps"][n - 1]
+        health, poisoned = "ok", ""
+        for j in range(n - 1):
+            a, sj = acts[j], w["steps"][j]
+            if a["a"] == "break":
+                health = a["h"]
+            elif a["a"] == "recover":
+                health = "ok"
+            elif a["a"] == "auth" and sj["fetch"] == "ok":
+                poisoned = ""                      # a successful download replaces whatever was held
+            elif a["a"] == "auth" and sj["fetch"] == "fail" and health == "s503json":
+                poisoned = "s503json"              # an error answer with a JSON object body was received
+        key = (st["k"], st["ok"], st["fetch"], health, poisoned)
+        if key not in jgroups or n < jgroups[key][0]:
+            jgroups[key] = (n, acts, st)
+    for key in sorted(jgroups)[:15]:
+        n, acts, st = jgroups[key]
+        ctx.violation({"jwks": {"token_key": key[0], "admitted": key[1], "download_in_call": key[2],
+                                "endpoint_now": key[3], "error_answer_received_since_last_download": key[4]}},
+                      "JWKS cache: after [%s] a valid token signed by %s is %s (download during the call: %s, endpoint now: %s, "
+                      "authority's key set and history as in the walk); error: %s" % (
+                          _jwks_say(acts, n - 1), key[0], "ADMITTED" if key[1] else "REJECTED", key[2], key[3],
+                          (st.get("err") or "")[:160]))
+    jseen = jgroups
+    if jbad:
+        ctx.note("%d JWKS-cache decisions violate the statement (%d distinct classes reported)" % (len(jbad), min(len(jseen), 15)))
+    jdrift = len(jtv.tagged("DRIFT"))
+    jsteps = sum(len(w["steps"]) for w in jrecs)
+    ctx.set("jwks_walks", len(jrecs))
+    ctx.set("jwks_walk_steps", jsteps)
+    ctx.set("jwks_decisions", sum(1 for w in jrecs for st in w["steps"] if st["a"] == "auth"))
+    ctx.set("jwks_downloads_seen_by_endpoint", sum(st.get("downloads", 0) for w in jrecs for st in w["steps"]))
+    ctx.set("jwks_graph_edges_covered", [jcovered, jtotal])
+    ctx.set("jwks_drift_events", jdrift)
+    if jdrift:
+        ctx.note("%d JWKS-cache decisions differ from layer 1 without necessarily violating the statement (DRIFT)" % jdrift)
+    ctx.sample({"jwks_walk": _jwks_say(jwalks[len(jwalks) // 2]["acts"], 99),
+                "decisions": [[st["k"], st["ok"], st["fetch"]] for st in jrecs[len(jwalks) // 2]["steps"] if st["a"] == "auth"]})
+    if ctx.thorough:
+        # sanity of the model: with the named deviation CodeIgnoresStatus (the code before fix 468a92b, finding
+        # C02-F2) the statement must be violated at design level; without it the same invariant held in the MC above
+        with open(d + "/JwksCache_dev.cfg", "w") as fh:
+            fh.write(JCFG % (maxage, healths, "TRUE", "ImplSatisfiesPropStrict"))
+        sr = vf.tlc(ctx, "JwksCache", "JwksCache_dev.cfg", workers=2, timeout=600, allow_violation=True)
+        if sr.violated != "ImplSatisfiesPropStrict":
+            raise vf.Infra("JwksCache.tla with CodeIgnoresStatus=TRUE does not violate ImplSatisfiesPropStrict (got %r): "
+                           "the model cannot see a cached error answer" % sr.violated)
+        ctx.set("deviation_CodeIgnoresStatus_violates", sr.violated)
     phases["tlc_trace_validation"] = round(time.time() - t0, 1)
     byprof = {}
     decisions = 0
@@ -149,7 +291,7 @@ def run(ctx):
     ctx.set("cases_enumerated", len(cases))
     ctx.set("decisions_by_profile_total_admitted", byprof)
     ctx.set("exhaustive", True)
-    ctx.set("traces_validated_against_impl", len(recs))
+    ctx.set("traces_validated_against_impl", len(recs) + len(jrecs))
     ctx.set("decisions_judged", decisions)
     ctx.set("sequence_records", {m: sum(1 for rec in recs if rec["mode"] == m) for m in ("serial", "concurrent")})
     ctx.set("auth_server_requests_logged", sum(len(rec["log"]) for rec in recs if "log" in rec))
